@@ -7,7 +7,10 @@ package main
 
 import (
 	"fmt"
+	"os"
 	"sync"
+	"sync/atomic"
+	"time"
 
 	"github.com/arloliu/go-secs/v2/hsms"
 	"github.com/arloliu/go-secs/v2/sml"
@@ -80,13 +83,45 @@ func racePass(c *vh.Ctx) {
 			texts = append(texts, s)
 		}
 	}
+	// watchdog: this pass is in-process, so a call that never returns cannot be killed on its own.
+	// Every worker (slot 0 = the sequential reference run) publishes the text it is working on and
+	// bumps a progress counter after each call; 15 s without progress is a non-termination: the
+	// texts in flight are reported as failing inputs and the process ends with its summary.
+	const workers = 8
+	var progress atomic.Int64
+	var inflight [workers + 1]atomic.Int64
+	for i := range inflight {
+		inflight[i].Store(-1)
+	}
+	go func() {
+		last, since := int64(-1), time.Now()
+		for {
+			time.Sleep(500 * time.Millisecond)
+			if p := progress.Load(); p != last {
+				last, since = p, time.Now()
+				continue
+			}
+			if time.Since(since) > 15*time.Second {
+				for w := range inflight {
+					if i := inflight[w].Load(); i >= 0 {
+						c.Fail(fmt.Sprintf("termination: parser did not return within 15 s on a %d-byte input (race pass, in-process)", len(texts[i])), describe(kase{input: texts[i], entry: 'P'}))
+					}
+				}
+				c.Note("race pass aborted by its watchdog: no call returned for 15 s")
+				c.Finish()
+				os.Exit(0)
+			}
+		}
+	}()
 	// sequential reference, fresh instances per call
 	ref := make([][2]string, len(texts))
 	for i, s := range texts {
+		inflight[0].Store(int64(i))
+		progress.Add(1)
 		ref[i][0] = parseAndRender(sml.NewParser(), false, newEncSet(), s)
 		ref[i][1] = parseAndRender(sml.NewParser(sml.WithParserStrictMode(true)), true, newEncSet(), s)
 	}
-	const workers = 8
+	inflight[0].Store(-1)
 	rounds := 2
 	if c.Tier == "thorough" {
 		rounds = 6
@@ -104,6 +139,8 @@ func racePass(c *vh.Ctx) {
 			for r := 0; r < rounds; r++ {
 				for j := range texts {
 					i := (j*7 + w*len(texts)/workers + r) % len(texts)
+					inflight[w+1].Store(int64(i))
+					progress.Add(1)
 					a := parseAndRender(pn, false, es, texts[i])
 					b := parseAndRender(ps, true, es, texts[i])
 					if a != ref[i][0] || b != ref[i][1] {
@@ -116,6 +153,7 @@ func racePass(c *vh.Ctx) {
 					}
 				}
 			}
+			inflight[w+1].Store(-1)
 		}(w)
 	}
 	wg.Wait()
